@@ -18,6 +18,19 @@ from .domains import LiaDomain, Unsupported, formula_atoms, slice_context
 P25519 = 2 ** 255 - 19
 
 
+class _Mod:
+    """the prime of the ring-mode run in progress (GF(p) for field elements, Z/l for scalars)"""
+    value = P25519
+
+
+def MOD():
+    return _Mod.value
+
+
+def set_mod(m):
+    _Mod.value = int(m)
+
+
 class RPoly:
     """polynomial over Z; monomial = tuple of (atom, exponent) sorted by atom"""
     __slots__ = ("t", "_h")
@@ -128,7 +141,7 @@ class RPoly:
         if not self.t:
             return self
         g = self.content()
-        if g % P25519 == 0:
+        if g % MOD() == 0:
             return self
         lead = min(self.t.items(), key=lambda kv: (-(sum(e for _, e in kv[0])), kv[0]))
         sgn = -1 if lead[1] < 0 else 1
@@ -208,7 +221,7 @@ def req(p):
     """formula  p == 0 in GF(p)"""
     p = to_rpoly(p)
     if p.is_const():
-        return p.const_val() % P25519 == 0
+        return p.const_val() % MOD() == 0
     return ("req", p.canon())
 
 
@@ -333,7 +346,7 @@ def find_cofactors_multi(goals, hyps, budget=6.0):
         for q in res:
             for (_, dd) in q.values():
                 den = den * dd // gcd(den, dd)
-        if den % P25519 == 0:
+        if den % MOD() == 0:
             out.append(None)
             continue
         qs = []
